@@ -738,6 +738,13 @@ pub proof fn witness_lemmas()
 pub assume_specification[ char::eq_ignore_ascii_case ](a: &char, b: &char) -> (r: bool)
     ensures r == (ascii_lower(*a) == ascii_lower(*b));
 
+// TRUSTED (std doc, same mapping as above); declared so that a change which starts to use these methods is decided, not rejected
+pub assume_specification[ char::to_ascii_lowercase ](a: &char) -> (r: char)
+    ensures r == ascii_lower(*a);
+pub open spec fn ascii_upper(c: char) -> char { if 'a' <= c && c <= 'z' { ((c as u8) - 32) as char } else { c } }
+pub assume_specification[ char::to_ascii_uppercase ](a: &char) -> (r: char)
+    ensures r == ascii_upper(*a);
+
 // TRUSTED: the number of chars of a str fits a usize (a str occupies at most isize::MAX bytes, every char at least one byte).
 // vstd states the same fact only through the total exec spec `str::unicode_len(&self) -> (l: usize) ensures self@.len() == l`,
 // which a proof cannot call; `check_str_len_fits_usize` below re-derives the axiom from that spec in exec mode.
